@@ -18,19 +18,19 @@ ASSUMPTIONS = [
 
 ALL3 = ('p8e0', 'p16e1', 'p32e2')
 PROPS = {
-    'C01': dict(lean_quick=['Props.C01'], prefixes=['p8e0::ops', 'p16e1::ops', 'p32e2::ops'],
+    'C01': dict(lean_quick=['Props.C01Fin'], prefixes=['p8e0::ops', 'p16e1::ops', 'p32e2::ops'],
                 partial='P8E0: theorem for all pairs; P16E1/P32E2: correspondence + oracle only so far'),
-    'C02': dict(lean_quick=[], prefixes=['p8e0::convert', 'p16e1::convert', 'p32e2::convert', 'convert']),
-    'C03': dict(lean_quick=[], prefixes=['p8e0::convert', 'p16e1::convert', 'p32e2::convert']),
-    'C05': dict(lean_quick=[], prefixes=['p8e0::math::mul_add', 'p16e1::math::mul_add', 'p32e2::math::mul_add']),
-    'C06': dict(lean_quick=[], prefixes=['p8e0::math::sqrt', 'p16e1::math::sqrt', 'p32e2::math::sqrt']),
-    'C07': dict(lean_quick=[], prefixes=['p8e0::convert', 'p16e1::convert', 'p32e2::convert']),
-    'C08': dict(lean_quick=[], prefixes=['convert']),
-    'C09': dict(lean_quick=[], prefixes=['p8e0::math', 'p16e1::math', 'p32e2::math']),
-    'C10': dict(lean_quick=[], prefixes=['p8e0::{', 'p16e1::{', 'p32e2::{', 'pxe1::{', 'pxe2::{']),
-    'C17': dict(lean_quick=[], prefixes=['p8e0', 'p16e1', 'p32e2', 'quire']),
-    'C04': dict(lean_quick=[], prefixes=['quire8', 'quire16', 'quire32']),
-    'C12': dict(lean_quick=[], prefixes=['quire8', 'quire16', 'quire32']),
+    'C02': dict(lean_quick=['Props.C02'], prefixes=['p8e0::convert', 'p16e1::convert', 'p32e2::convert', 'convert']),
+    'C03': dict(lean_quick=['Props.C03Fin'], prefixes=['p8e0::convert', 'p16e1::convert', 'p32e2::convert']),
+    'C05': dict(lean_quick=['Props.C05ShardQuick'], prefixes=['p8e0::math::mul_add', 'p16e1::math::mul_add', 'p32e2::math::mul_add']),
+    'C06': dict(lean_quick=['Props.C06Fin'], prefixes=['p8e0::math::sqrt', 'p16e1::math::sqrt', 'p32e2::math::sqrt']),
+    'C07': dict(lean_quick=['Props.C07Fin'], prefixes=['p8e0::convert', 'p16e1::convert', 'p32e2::convert']),
+    'C08': dict(lean_quick=['Props.C08Fin'], prefixes=['convert']),
+    'C09': dict(lean_quick=['Props.C09Fin'], prefixes=['p8e0::math', 'p16e1::math', 'p32e2::math']),
+    'C10': dict(lean_quick=['Props.C10Fin'], prefixes=['p8e0::{', 'p16e1::{', 'p32e2::{', 'pxe1::{', 'pxe2::{']),
+    'C17': dict(lean_quick=['Props.C17Fin'], prefixes=['p8e0', 'p16e1', 'p32e2', 'quire']),
+    'C04': dict(lean_quick=['Props.C04'], prefixes=['quire8', 'quire16', 'quire32']),
+    'C12': dict(lean_quick=['Props.C12'], prefixes=['quire8', 'quire16', 'quire32']),
 }
 OVERRIDE_PROPS = {'C04', 'C12', 'C14', 'C15', 'C16', 'C18'}
 
